@@ -32,6 +32,11 @@ p = os.path.join(ROOT, 'DESIGN.md')
 s = open(p).read()
 marker = "| change | breaks | what it needs to manifest | quick checks run → result |\n|---|---|---|---|\n"
 i = s.rindex(marker)
-s = s[:i + len(marker)] + "\n".join(table) + "\n"
+j = i + len(marker)
+rest = s[j:].split("\n")
+k = 0
+while k < len(rest) and rest[k].startswith("|"):
+    k += 1
+s = s[:j] + "\n".join(table) + "\n" + "\n".join(rest[k:])
 open(p, 'w').write(s)
 print(len(rows), "seeded changes")
